@@ -321,6 +321,15 @@ def hook(ex, func, argv, frame):
         if a[1] != 10:
             raise Unsupported('from_str_radix with radix %r' % (a[1],))
         return True, parse_uint(ex, deref(a[0]), mm.group(1))
+    # ---- `&&str` patterns behave like `&str` patterns
+    mpp = re.match(r'^(core::str::<impl str>::\w+)::<&&str>$', f)
+    if mpp:
+        return True, ex.dispatch(ex, mpp.group(1) + '::<&str>', [a[0], deref(a[1])] + list(a[2:]), frame)
+    # ---- str::parse::<T> for a crate type is T's own FromStr impl
+    if g == 'core::str::<impl str>::parse':
+        t = f[f.index('parse::<') + 8:-1]
+        if not t.startswith(('std::', 'core::', 'u', 'i', 'f', 'bool', 'char')):
+            return True, ex.dispatch(ex, '<%s as std::str::FromStr>::from_str' % t, [a[0]], frame)
     # ---- Utf8Error accessors (the error value remembers the slice that was validated)
     if g in ('std::str::Utf8Error::valid_up_to', 'core::str::Utf8Error::valid_up_to', 'std::str::Utf8Error::error_len', 'core::str::Utf8Error::error_len'):
         e_ = deref(a[0])
